@@ -3,14 +3,17 @@ import PyaModel.Proofs.C10
 # Props/C10 — diagnostics are deterministic and independent of prior checks
 
 Property theorems only. Models: `Core/Cache.lean` (A: set-iteration sites as functions of the
-iteration order; B: memo tables and the protocol check with recursion guard and positive cache).
+iteration order; B: memo tables and the protocol check with recursion guard and positive cache),
+following /repo after the five C10 repairs a944eb3, 24b231d, da6a3f3, 5fee81d, e01ac16.
 Spec: `Spec/CacheSpec.lean` (`OrderFree`, `answerFresh`, `sem`, exception classes `D10_*`).
 
 A site is *order free* when its output is the same for any two iteration orders of the same set
-(`o₁.Perm o₂`). For the sites where the code lets the order through, the full statement is kept as a
-`def … : Prop`, refuted on a concrete input, and proved under the negation of the site's exception
-class. The history part does the same for the statement "the answer after any history equals the
-answer of a fresh checker".
+(`o₁.Perm o₂`). The repaired sites are order free at full strength. For the sites whose repair was
+not applied (definition-node sets) the full statement is kept as a `def … : Prop`, refuted on a
+concrete input, and proved under the negation of the site's exception class. The history part
+does the same for "the answer after any history equals the answer of a fresh checker": one
+exception class is left (`cacheUnderFailedAssumption`). Theorems named `old_…` are regression
+documentation about the code before the repairs, not about the code under check.
 -/
 namespace Pya.C10
 
@@ -72,72 +75,55 @@ theorem closure_order_free (succ : Nat → List Nat) (start : Nat) (c₁ c₂ : 
     y ∈ (closureRun succ start c₁).2.2 ↔ y ∈ (closureRun succ start c₂).2.2 := by
   rw [closure_result succ start c₁ h₁ y, closure_result succ start c₂ h₂ y]
 
-/-! ### Sites that let the order through -/
+/-! ### The repaired sites: order free at full strength -/
 
-/-- Full statement for the text-producing sites (false, see the witnesses). -/
-def join_sites_order_free : Prop :=
-  OrderFree siteExtraKwargs ∧ (∀ nl, OrderFree (fun o => siteKeysLeft o nl)) ∧
-  (∀ base, OrderFree (siteProtocolStr base true)) ∧ OrderFree siteDisallowedKinds
-
-/-- `Got unexpected keyword arguments 'a', 'b'` vs `'b', 'a'` (class joinExtraKwargs). -/
-theorem extraKwargs_depends : siteExtraKwargs ["a", "b"] ≠ siteExtraKwargs ["b", "a"] := by decide
-
-/-- `No value specified for keys a, b` vs `b, a` (class joinKeysLeft). -/
-theorem keysLeft_depends : siteKeysLeft ["a", "b"] false ≠ siteKeysLeft ["b", "a"] false := by decide
-
-/-- `P (Protocol with members 'a', 'b')` vs `'b', 'a'` (class protocolMembersOrder). -/
-theorem protocolStr_depends : siteProtocolStr "P" true ["a", "b"] ≠ siteProtocolStr "P" true ["b", "a"] := by
-  decide
-
-theorem join_sites_order_free_false : ¬ join_sites_order_free := by
-  intro h
-  exact extraKwargs_depends (h.1 ["a", "b"] ["b", "a"] (List.Perm.swap _ _ _))
-
-/-- **Partial**: outside the class "the set has two or more elements" all four text sites are
-order free. -/
-theorem join_sites_partial (elems o₁ o₂ : List String) (hd : D10_twoOrMore elems = false)
-    (h₁ : o₁.Perm elems) (h₂ : o₂.Perm elems) (nl : Bool) (base : String) :
-    siteExtraKwargs o₁ = siteExtraKwargs o₂ ∧ siteKeysLeft o₁ nl = siteKeysLeft o₂ nl ∧
-    siteProtocolStr base true o₁ = siteProtocolStr base true o₂ ∧
-    siteDisallowedKinds o₁ = siteDisallowedKinds o₂ := by
-  rw [orders_eq_of_small elems o₁ o₂ hd h₁ h₂]
-  exact ⟨rfl, rfl, rfl, rfl⟩
-
-/-- `_is_compatible_with_protocol`: *whether* an error is returned does not depend on the order —
-full for the verdict. -/
-theorem protocolFirstFail_verdict_order_free (other : String) (outcome : String → MemberOutcome) :
-    OrderFree (fun o => (siteProtocolFirstFail other outcome o).isSome) := by
+/-- `Got unexpected keyword arguments …` (a944eb3): the names come in call order; the set
+`keywords_consumed` is only asked for membership — full. -/
+theorem extraKwargs_order_free (keywords : List String) : OrderFree (siteExtraKwargs keywords) := by
   intro o₁ o₂ h
-  simp only [siteProtocolFirstFail, findSome?_isSome_eq_any]
-  exact any_perm _ h
+  simp only [siteExtraKwargs, contains_perm h]
 
-/-- Full statement for the error text (false). -/
-def protocolFirstFail_order_free : Prop :=
-  ∀ other outcome, OrderFree (siteProtocolFirstFail other outcome)
+/-- `No value specified for keys …` (24b231d): template order; `seen_keys` is only asked for
+membership — full. -/
+theorem keysLeft_order_free (template : List String) (nl : Bool) :
+    OrderFree (fun seen => siteKeysLeft template seen nl) := by
+  intro o₁ o₂ h
+  simp only [siteKeysLeft, contains_perm h]
 
-/-- Which member the error names depends on the order (class protocolMembersOrder). -/
-theorem protocolFirstFail_depends :
-    siteProtocolFirstFail "A" (fun _ => .missing) ["a", "b"] ≠
-    siteProtocolFirstFail "A" (fun _ => .missing) ["b", "a"] := by decide
+/-- `P (Protocol with members …)` (da6a3f3): `sorted` — full. -/
+theorem protocolStr_order_free (base : String) (isProtocol : Bool) :
+    OrderFree (siteProtocolStr base isProtocol) := by
+  intro o₁ o₂ h
+  simp only [siteProtocolStr, isortBy_perm strLe strLe_linear h]
 
-theorem protocolFirstFail_order_free_false : ¬ protocolFirstFail_order_free :=
-  fun h => protocolFirstFail_depends (h "A" (fun _ => .missing) _ _ (List.Perm.swap _ _ _))
+/-- `_is_compatible_with_protocol` (da6a3f3): the loop runs over `sorted(self.protocol_members)`, so
+the member the error names — and the whole first line — is order free — full. -/
+theorem protocolFirstFail_order_free (other : String) (outcome : String → MemberOutcome) :
+    OrderFree (siteProtocolFirstFail other outcome) := by
+  intro o₁ o₂ h
+  simp only [siteProtocolFirstFail, isortBy_perm strLe strLe_linear h]
 
-/-- **Partial**: when at most one member fails, the error text is order free. -/
-theorem protocolFirstFail_partial (other : String) (outcome : String → MemberOutcome)
-    (elems o₁ o₂ : List String) (hd : D10_twoFailing outcome elems = false)
-    (h₁ : o₁.Perm elems) (h₂ : o₂.Perm elems) :
-    siteProtocolFirstFail other outcome o₁ = siteProtocolFirstFail other outcome o₂ := by
-  unfold siteProtocolFirstFail
-  apply findSome?_perm_of_le_one _ elems o₁ o₂ _ h₁ h₂
-  have hl : (elems.filter fun m => outcome m != .ok).length ≤ 1 := by
-    simp [D10_twoFailing] at hd; omega
-  have heq : (elems.filter fun x => (failText other x (outcome x)).isSome) =
-      elems.filter fun m => outcome m != .ok := by
-    apply List.filter_congr
-    intro x _
-    cases outcome x <;> rfl
-  rw [heq]; exact hl
+/-- `isinstance(x, A) or isinstance(x, B)` (5fee81d): `list(dict.fromkeys(constraints))` — the site
+function has no set argument left; whatever a set iteration would have produced, the narrowed union
+has the members the old code produced (set reading). -/
+theorem orNarrow_members_unchanged (sub : Nat → Nat → Bool) (vals : List Member) (tests order : List Nat)
+    (h : order.Perm tests) (y : Member) :
+    y ∈ siteOrNarrow sub vals tests ↔ y ∈ oldOrNarrow sub vals order := by
+  simp only [oldOrNarrow, siteOrNarrow, mem_dedup, List.mem_flatMap]
+  constructor
+  · rintro ⟨v, hv, c, hc, hy⟩; exact ⟨v, hv, c, h.mem_iff.mpr hc, hy⟩
+  · rintro ⟨v, hv, c, hc, hy⟩; exact ⟨v, hv, c, h.mem_iff.mp hc, hy⟩
+
+/-! ### Sites that still let the order through -/
+
+/-- `Signature.validate`'s `", ".join(kind.name for kind in disallowed_previous)` (text of an
+InvalidSignature exception; no source program reaches it): **partial**, fewer than two kinds. -/
+theorem disallowedKinds_partial (elems o₁ o₂ : List String) (hd : D10_twoOrMore elems = false)
+    (h₁ : o₁.Perm elems) (h₂ : o₂.Perm elems) : siteDisallowedKinds o₁ = siteDisallowedKinds o₂ := by
+  rw [orders_eq_of_small elems o₁ o₂ hd h₁ h₂]
+
+theorem disallowedKinds_depends : siteDisallowedKinds ["a", "b"] ≠ siteDisallowedKinds ["b", "a"] := by
+  decide
 
 /-- `for base in other.artificial_bases`: whether some base succeeds is order free — full for the
 verdict; the chosen result is order free when at most one base succeeds — **partial**. -/
@@ -158,36 +144,6 @@ theorem firstSuccess_partial {α β : Type} (attempt : α → Option β) (elems 
 theorem firstSuccess_depends :
     siteFirstSuccess (fun b : Nat => some b) [1, 2] ≠ siteFirstSuccess (fun b : Nat => some b) [2, 1] := by
   decide
-
-/-- `isinstance(x, A) or isinstance(x, B)`: the narrowed union has the same *members* whatever
-order `list(set(constraints))` produced — full in the set reading (this is also
-`MultiValuedValue.__eq__`). -/
-theorem orNarrow_order_free_as_set (sub : Nat → Nat → Bool) (vals : List Member) :
-    OrderFreeAsSet (siteOrNarrow sub vals) := by
-  intro o₁ o₂ h y
-  simp only [siteOrNarrow, mem_dedup, List.mem_flatMap]
-  constructor
-  · rintro ⟨v, hv, c, hc, hy⟩; exact ⟨v, hv, c, h.mem_iff.mp hc, hy⟩
-  · rintro ⟨v, hv, c, hc, hy⟩; exact ⟨v, hv, c, h.mem_iff.mpr hc, hy⟩
-
-/-- Full statement for the member *order* (false). -/
-def orNarrow_order_free : Prop := ∀ sub vals, OrderFree (siteOrNarrow sub vals)
-
-/-- `x: Any`, tests `[1, 2]` vs `[2, 1]`: the union is printed `1 | 2` vs `2 | 1`
-(class orConstraintOrder). -/
-theorem orNarrow_depends :
-    siteOrNarrow (fun a b => a == b) [.any] [1, 2] ≠ siteOrNarrow (fun a b => a == b) [.any] [2, 1] := by
-  decide
-
-theorem orNarrow_order_free_false : ¬ orNarrow_order_free :=
-  fun h => orNarrow_depends (h _ _ _ _ (List.Perm.swap _ _ _))
-
-/-- **Partial**: with fewer than two constraints the member order is fixed. -/
-theorem orNarrow_partial (sub : Nat → Nat → Bool) (vals : List Member) (elems o₁ o₂ : List Nat)
-    (hd : D10_twoConstraints elems = false) (h₁ : o₁.Perm elems) (h₂ : o₂.Perm elems) :
-    siteOrNarrow sub vals o₁ = siteOrNarrow sub vals o₂ := by
-  have : D10_twoOrMore elems = false := hd
-  rw [orders_eq_of_small elems o₁ o₂ this h₁ h₂]
 
 /-- Definition nodes iterated in set order (`suppressing_subscope`, `_get_value_from_nodes`): same
 members — full in the set reading. -/
@@ -233,13 +189,33 @@ theorem orBound_partial (elems o₁ o₂ : List (List Nat)) (hd : D10_twoOrMore 
     (h₁ : o₁.Perm elems) (h₂ : o₂.Perm elems) : siteOrBound o₁ = siteOrBound o₂ := by
   rw [orders_eq_of_small elems o₁ o₂ hd h₁ h₂]
 
-/-! Non-vacuity of the partial theorems' hypotheses. -/
+/-! Non-vacuity of the partial theorems' hypotheses, and the repaired sites on concrete inputs. -/
 example : D10_twoOrMore ["zeta"] = false ∧ ["zeta"].Perm ["zeta"] := ⟨by decide, List.Perm.refl _⟩
-example : D10_twoFailing (fun m => if m == "b" then .conflict else .ok) ["a", "b", "c"] = false := by decide
-example : siteProtocolFirstFail "A" (fun m => if m == "b" then .conflict else .ok) ["c", "b", "a"]
-    = some "Value of protocol member 'b' conflicts" := by decide
 example : D10_twoSucceed (fun b : Nat => if b == 2 then some b else none) [1, 2, 3] = false := by decide
-example : D10_twoConstraints [7] = false := by decide
+example : siteExtraKwargs ["zeta", "a", "eta"] ["a"] = some "Got unexpected keyword arguments 'zeta', 'eta'" := by
+  decide
+example : siteProtocolStr "P" true ["b", "a"] = "P (Protocol with members 'a', 'b')" := by decide
+example : siteProtocolFirstFail "A" (fun _ => .missing) ["b", "a"] = some "A has no attribute 'a'" := by decide
+
+/-! ### Regression documentation: why the five sites were repaired (old site functions) -/
+
+/-- Before a944eb3: `'a', 'b'` vs `'b', 'a'` (former class joinExtraKwargs). -/
+theorem old_extraKwargs_depends : oldExtraKwargs ["a", "b"] ≠ oldExtraKwargs ["b", "a"] := by decide
+
+/-- Before 24b231d (former class joinKeysLeft). -/
+theorem old_keysLeft_depends : oldKeysLeft ["a", "b"] false ≠ oldKeysLeft ["b", "a"] false := by decide
+
+/-- Before da6a3f3 (former class protocolMembersOrder). -/
+theorem old_protocolStr_depends : oldProtocolStr "P" ["a", "b"] ≠ oldProtocolStr "P" ["b", "a"] := by decide
+
+theorem old_protocolFirstFail_depends :
+    oldProtocolFirstFail "A" (fun _ => .missing) ["a", "b"] ≠
+    oldProtocolFirstFail "A" (fun _ => .missing) ["b", "a"] := by decide
+
+/-- Before 5fee81d: `x: Any`, tests in set order `[1, 2]` vs `[2, 1]` (former class orConstraintOrder). -/
+theorem old_orNarrow_depends :
+    oldOrNarrow (fun a b => a == b) [.any] [1, 2] ≠ oldOrNarrow (fun a b => a == b) [.any] [2, 1] := by
+  decide
 
 /-! ## B. History -/
 
@@ -275,21 +251,11 @@ theorem memo_key_must_determine :
       [] (0, false)).1 := by decide
 
 /-- Full statement for the protocol check: every answer equals the answer of a fresh checker
-(false: three independent exception classes). -/
+(false: one exception class is left). -/
 def cached_answer_valid : Prop :=
   ∀ (W : World) (fuel : Nat) (h : List Query) (q : Query), answerAfter W fuel h q = answerFresh W fuel q
 
-/-- World of the first witness: `Hashable`-like protocol 0 whose only member is Any-typed on value 0. -/
-def wMode : World := ⟨[((0, 0, 0), [[.anyOk]])], []⟩
-
-/-- **cacheIgnoresMode**: accepted in normal mode, cached, replayed under `set_exclude_any` where a
-fresh checker rejects. History `[normal 0←0]`, query `exclude-any 0←0`. -/
-theorem cache_ignores_mode_witness :
-    answerAfter wMode 3 [⟨false, 0, 0, 0⟩] ⟨true, 0, 0, 0⟩ = true ∧
-    answerFresh wMode 3 ⟨true, 0, 0, 0⟩ = false := by decide
-
-/-- World of the second witness: P1 ← A needs (P2 ← B) and then something false; P2 ← B needs
-P1 ← A. -/
+/-- World of the witness: P1 ← A needs (P2 ← B) and then something false; P2 ← B needs P1 ← A. -/
 def wGuard : World := ⟨[((1, 0, 1), [[.sub 2 0 2, .const false]]), ((2, 0, 2), [[.sub 1 0 1]])], []⟩
 
 /-- **cacheUnderFailedAssumption**: while checking P1 ← A, the nested P2 ← B succeeds under the
@@ -299,51 +265,73 @@ theorem cache_under_failed_assumption_witness :
     answerAfter wGuard 5 [⟨false, 1, 0, 1⟩] ⟨false, 2, 0, 2⟩ = true ∧
     answerFresh wGuard 5 ⟨false, 2, 0, 2⟩ = false ∧ gfpCompat wGuard false = [] := by decide
 
-/-- World of the third witness: `SupportsAbs[int] ← int` holds, `SupportsAbs[str] ← int` does not. -/
-def wArgs : World := ⟨[((0, 0, 0), [[.const true]]), ((0, 1, 0), [[.const false]])], []⟩
-
-/-- **protoCacheKey**: the cache lives on the protocol *class*: the positive answer for variant 0 of
-its generic arguments is replayed for variant 1. -/
-theorem proto_cache_key_witness :
-    answerAfter wArgs 3 [⟨false, 0, 0, 0⟩] ⟨false, 0, 1, 0⟩ = true ∧
-    answerFresh wArgs 3 ⟨false, 0, 1, 0⟩ = false := by decide
-
 theorem cached_answer_valid_false : ¬ cached_answer_valid := by
   intro h
-  have := h wMode 3 [⟨false, 0, 0, 0⟩] ⟨true, 0, 0, 0⟩
-  rw [cache_ignores_mode_witness.1, cache_ignores_mode_witness.2] at this
+  have := h wGuard 5 [⟨false, 1, 0, 1⟩] ⟨false, 2, 0, 2⟩
+  rw [cache_under_failed_assumption_witness.1, cache_under_failed_assumption_witness.2.1] at this
   cases this
 
-/-- **History independence of the protocol check, partial.** Outside the three classes — the
-world's nested checks are well-founded w.r.t. `rk` (`¬ D10_cyclic`), only variant 0 of every
-protocol's generic arguments occurs (`¬ D10_selfArgs`), history and query use one mode
-(`¬ D10_modeMix`) — and with fuel above the rank of every query, for *every* history the answer is
-the structural one, hence the answer of a fresh checker. Proved by induction on the fuel with
-nested inductions over members and slots (`check_spec`) and induction over the history. -/
+/-- **History independence of the protocol check, partial.** Outside the one class left — the
+world's nested checks are well-founded w.r.t. `rk` (`¬ D10_cyclic`: the recursion guard never
+fires) — and with fuel above the rank of every query, for *every* history, in any mix of the two
+modes and of the protocols' generic-argument variants, the answer is the structural one, hence the
+answer of a fresh checker. Proved by induction on the fuel with nested inductions over members and
+slots (`check_spec`) and induction over the history. -/
 theorem proto_history_independent_partial (W : World) (rk : Rank) (fuel : Nat) (h : List Query)
-    (q : Query) (h1 : D10_cyclic W rk = false) (h2 : D10_selfArgs W h q = false)
-    (h3 : D10_modeMix h q = false) (h4 : fuelOK W rk fuel (q :: h) = true) :
+    (q : Query) (h1 : D10_cyclic W rk = false) (h4 : fuelOK W rk fuel (q :: h) = true) :
     answerAfter W fuel h q = answerFresh W fuel q ∧
     answerFresh W fuel q = sem W q.ex fuel q.p q.a q.v := by
-  have ha := answerAfter_eq_sem W rk fuel h q h1 h2 h3 h4
+  have ha := answerAfter_eq_sem W rk fuel h q h1 h4
   have hf := answerAfter_eq_sem W rk fuel [] q h1
-    (by simp only [D10_selfArgs, List.any_cons, Bool.or_eq_false_iff] at h2 ⊢
-        exact ⟨⟨h2.1.1, by simp⟩, h2.2⟩)
-    (by simp [D10_modeMix])
     (by simp only [fuelOK, List.all_cons, Bool.and_eq_true] at h4 ⊢; exact ⟨h4.1, by simp⟩)
   exact ⟨by rw [ha]; exact hf.symm, hf⟩
 
-/-! Non-vacuity: a world with a nested protocol and an Any-typed member satisfies the hypotheses;
-both answers occur. -/
+/-! Non-vacuity: a world with a nested protocol, an Any-typed member and two variants of the generic
+arguments satisfies the hypotheses; the history mixes modes and variants; both answers occur. -/
 def wOk : World :=
-  ⟨[((0, 0, 0), [[.sub 1 0 1], [.const true]]), ((1, 0, 1), [[.const true]]), ((1, 0, 0), [[.const false]]),
-    ((0, 0, 1), [[.sub 1 0 0]])], []⟩
+  ⟨[((0, 0, 0), [[.sub 1 0 1], [.anyOk]]), ((1, 0, 1), [[.const true]]), ((1, 0, 0), [[.const false]]),
+    ((0, 0, 1), [[.sub 1 0 0]]), ((0, 1, 0), [[.const false]])], []⟩
 def rkOk : Rank := rankOf [((0, 0), 1), ((0, 1), 1), ((1, 0), 0), ((1, 1), 0)]
 example : D10_cyclic wOk rkOk = false := by decide
-example : D10_selfArgs wOk [⟨false, 0, 0, 1⟩, ⟨false, 1, 0, 1⟩] ⟨false, 0, 0, 0⟩ = false := by decide
-example : D10_modeMix [⟨false, 0, 0, 1⟩, ⟨false, 1, 0, 1⟩] ⟨false, 0, 0, 0⟩ = false := by decide
-example : fuelOK wOk rkOk 3 [⟨false, 0, 0, 0⟩, ⟨false, 0, 0, 1⟩, ⟨false, 1, 0, 1⟩] = true := by decide
-example : answerAfter wOk 3 [⟨false, 0, 0, 1⟩, ⟨false, 1, 0, 1⟩] ⟨false, 0, 0, 0⟩ = true := by decide
-example : answerFresh wOk 3 ⟨false, 0, 0, 1⟩ = false := by decide
+example : fuelOK wOk rkOk 3 [⟨true, 0, 0, 0⟩, ⟨false, 0, 0, 0⟩, ⟨false, 0, 1, 0⟩, ⟨false, 1, 0, 1⟩] = true := by
+  decide
+example : answerAfter wOk 3 [⟨false, 0, 1, 0⟩, ⟨false, 1, 0, 1⟩] ⟨false, 0, 0, 0⟩ = true := by decide
+example : answerAfter wOk 3 [⟨false, 0, 0, 0⟩] ⟨true, 0, 0, 0⟩ = false := by decide
+example : answerAfter wOk 3 [⟨false, 0, 0, 0⟩] ⟨false, 0, 1, 0⟩ = false := by decide
+
+/-! ### Regression: the two cache-key defects repaired by e01ac16 -/
+
+/-- `Hashable`-like protocol 0 whose only member is Any-typed on value 0. -/
+def wMode : World := ⟨[((0, 0, 0), [[.anyOk]])], []⟩
+
+/-- `SupportsAbs[int] ← int` holds, `SupportsAbs[str] ← int` does not. -/
+def wArgs : World := ⟨[((0, 0, 0), [[.const true]]), ((0, 1, 0), [[.const false]])], []⟩
+
+/-- The mode is part of the key: a normal-mode acceptance is not replayed under `set_exclude_any`
+(former class cacheIgnoresMode; also an instance of the partial theorem). -/
+theorem cache_respects_mode :
+    answerAfter wMode 3 [⟨false, 0, 0, 0⟩] ⟨true, 0, 0, 0⟩ = answerFresh wMode 3 ⟨true, 0, 0, 0⟩ := by decide
+
+/-- The generic arguments are part of the key (former class protoCacheKey). -/
+theorem cache_respects_generic_arguments :
+    answerAfter wArgs 3 [⟨false, 0, 0, 0⟩] ⟨false, 0, 1, 0⟩ = answerFresh wArgs 3 ⟨false, 0, 1, 0⟩ := by decide
+
+/-- Before e01ac16 (`check2 false false false`: key = the other value only): accepted in normal
+mode, cached, replayed under `set_exclude_any` where a fresh checker rejects. -/
+theorem old_cache_ignores_mode_witness :
+    answerAfter2 wMode false false false 3 [⟨false, 0, 0, 0⟩] ⟨true, 0, 0, 0⟩ = true ∧
+    answerAfter2 wMode false false false 3 [] ⟨true, 0, 0, 0⟩ = false := by decide
+
+/-- Before e01ac16: the positive answer for variant 0 of the generic arguments is replayed for
+variant 1. -/
+theorem old_proto_cache_key_witness :
+    answerAfter2 wArgs false false false 3 [⟨false, 0, 0, 0⟩] ⟨false, 0, 1, 0⟩ = true ∧
+    answerAfter2 wArgs false false false 3 [] ⟨false, 0, 1, 0⟩ = false := by decide
+
+/-- The repair that was not applied (`check2 true true true`: nothing is cached while an assumption
+is in force) removes the remaining witness. -/
+theorem top_only_caching_repairs_witness :
+    answerAfter2 wGuard true true true 5 [⟨false, 1, 0, 1⟩] ⟨false, 2, 0, 2⟩ =
+    answerAfter2 wGuard true true true 5 [] ⟨false, 2, 0, 2⟩ := by decide
 
 end Pya.C10
